@@ -2,14 +2,14 @@
 # tools/seedrerun.sh "pid i outroot tests" ... ; sequential
 mkdir -p /tmp/seed-results
 for spec in "$@"; do
-  set -- $spec; pid=$1; i=$2; root=$3; tests=${4//,/ }
-  python3 tools/seedtest.py $pid $root/$pid $i --tests "$tests" --keep-as $pid-$i > /tmp/seed-results/$pid-$i.json 2>&1
+  set -- $spec; pid=$1; i=$2; root=$3; tests=${4//,/ }; suf=$5
+  python3 tools/seedtest.py $pid $root/$pid $i --tests "$tests" --keep-as $pid-$i$suf > /tmp/seed-results/$pid-$i$suf.json 2>&1
   python3 - <<PY
 import json
 try:
-    r=json.load(open('/tmp/seed-results/$pid-$i.json'))
-    print('$pid-$i','confirmed',r['confirmed'],'caught',r['caught'],{k:(v['rc'],v['violations'],v['wall_s']) for k,v in r['checks'].items()}, flush=True)
+    r=json.load(open('/tmp/seed-results/$pid-$i$suf.json'))
+    print('$pid-$i$suf','confirmed',r['confirmed'],'caught',r['caught'],{k:(v['rc'],v['violations'],v['wall_s']) for k,v in r['checks'].items()}, flush=True)
 except Exception as e:
-    print('$pid-$i','ERROR',e, flush=True)
+    print('$pid-$i$suf','ERROR',e, flush=True)
 PY
 done
